@@ -169,6 +169,8 @@ def geometries(ndims, origins=None, cells=None):
 
 
 FIELD_ALPHABET = ["temp", "density", "Y(H2)", "Y(O2)", "volFrac", "Z", "Zvar", "a", "x_velocity"]
+# names that differ only by letter case (both are distinct, valid AMReX field names)
+CASE_FIELDS = ["T", "rho", "t", "Y(CO)", "Y(Co)", "Rho"]
 
 
 def rotate(seq, seed):
@@ -191,12 +193,24 @@ def thin_meshes(ndims):
 
 
 def far_index_meshes(ndims):
-    """box indices of six digits (relative tolerances of 1e-5 confuse neighbouring cells there)"""
+    """box indices of six digits in TWO directions (relative tolerances of 1e-5 confuse neighbouring cells there, and the
+    FAB header lines of these boxes are longer than 100 bytes).  Level 0 does not tile the domain: for readers and
+    validators only, not for the tools that build domain-sized arrays."""
     if ndims == 2:
-        return [{"ndims": 2, "domain": [100004, 2], "levels": [[[[0, 0], [1, 1]], [[100000, 0], [100001, 1]], [[100002, 0], [100003, 1]]],
-                                                              [[[200000, 0], [200003, 3]], [[200004, 0], [200005, 1]]]]}]
-    return [{"ndims": 3, "domain": [100004, 2, 2], "levels": [[[[0, 0, 0], [1, 1, 1]], [[100000, 0, 0], [100001, 1, 1]], [[100002, 0, 0], [100003, 1, 1]]],
-                                                             [[[200000, 0, 0], [200003, 3, 3]], [[200004, 0, 0], [200005, 1, 1]]]]}]
+        return [{"ndims": 2, "domain": [100004, 100002], "levels": [[[[0, 0], [1, 1]], [[100000, 100000], [100001, 100001]], [[100002, 100000], [100003, 100001]]],
+                                                                   [[[200000, 200000], [200003, 200003]], [[200004, 200000], [200005, 200001]]]]}]
+    return [{"ndims": 3, "domain": [100004, 100002, 2], "levels": [[[[0, 0, 0], [1, 1, 1]], [[100000, 100000, 0], [100001, 100001, 1]], [[100002, 100000, 0], [100003, 100001, 1]]],
+                                                                  [[[200000, 200000, 0], [200003, 200003, 3]], [[200004, 200000, 0], [200005, 200001, 1]]]]}]
+
+
+def deep_corner_mesh():
+    """a properly tiled 3D plotfile whose finest (4th) level sits in the far corner: indices of 4 + 3 + 3 digits there,
+    i.e. FAB header lines longer than 100 bytes, as in any production run (domain 128 x 16 x 16 -> 1024 x 128 x 128)"""
+    return {"ndims": 3, "domain": [128, 16, 16],
+            "levels": [[[[0, 0, 0], [63, 15, 15]], [[64, 0, 0], [127, 15, 15]]],
+                       [[[252, 28, 28], [255, 31, 31]], [[248, 28, 28], [251, 31, 31]]],
+                       [[[508, 60, 60], [511, 63, 63]]],
+                       [[[1020, 124, 124], [1023, 127, 127]], [[1016, 124, 124], [1019, 127, 127]]]]}
 
 
 # a few fixed meshes used as irrelevant context (rotated by VERIF_SEED)
